@@ -60,6 +60,8 @@ struct HArrS { typedef Array<String> H; static const char* S() { return "a heap 
 struct HMap { typedef Map<int, Tracked> H; static H make() { H m; for (int i = 0; i < 4; i++) m[i] = Tracked(i); return m; } static bool read(const H& h) { const Tracked* p = h.find(3); return h.length() == 4 && h.has(2) && p && p->ok(); } static const char* name() { return "Map<int,Tracked>"; } };
 struct HDic { typedef Dic<String> H; static const char* S() { return "value number one, long enough"; } static H make() { H m; m["k1"] = S(); m["k2"] = "v"; return m; } static bool read(const H& h) { const String* p = h.find("k1"); return h.length() == 2 && p && *p == S(); } static const char* name() { return "Dic<String>"; } };
 struct HHash { typedef HashMap<int, Tracked> H; static H make() { H m; for (int i = 0; i < 4; i++) m[i * 256] = Tracked(i); return m; } static bool read(const H& h) { const Tracked* p = h.find(768); return h.length() == 4 && h.has(512) && p && p->ok(); } static const char* name() { return "HashMap<int,Tracked>"; } };
+struct HHashBig { typedef HashMap<int, Tracked> H; static H make() { H m; for (int i = 0; i < 300; i++) m[i * 7] = Tracked(i); return m; }   // grown past the 225-entry rehash threshold before it is shared
+	static bool read(const H& h) { const Tracked* p = h.find(299 * 7); const Tracked* q = h.find(7); return h.length() == 300 && p && p->ok() && q && q->ok(); } static const char* name() { return "HashMap<int,Tracked> after growth"; } };
 struct HShared { typedef Shared<Tracked> H; static H make() { return H(new Tracked(9)); } static bool read(const H& h) { return h->ok() && h->v == 9; } static const char* name() { return "Shared<Tracked>"; } };
 struct HSmart { typedef Thing H; static H make() { return Thing(); } static bool read(const H& h) { return h.ok(); } static const char* name() { return "SmartObject class"; } };
 
@@ -157,7 +159,8 @@ static void serialCase(vf::Ctx& c)
 
 static void mode_serial(vf::Ctx& c)
 {
-	switch (c.idx % 7) {
+	switch (c.idx % 8) {
+	case 7: serialCase<HHashBig>(c); break;
 	case 0: serialCase<HArrT>(c); break;
 	case 1: serialCase<HArrS>(c); break;
 	case 2: serialCase<HMap>(c); break;
@@ -215,7 +218,8 @@ static void stressCase(vf::Ctx& c)
 
 static void mode_stress(vf::Ctx& c)
 {
-	switch (c.idx % 7) {
+	switch (c.idx % 8) {
+	case 7: stressCase<HHashBig>(c); break;
 	case 0: stressCase<HArrT>(c); break;
 	case 1: stressCase<HArrS>(c); break;
 	case 2: stressCase<HMap>(c); break;
@@ -319,9 +323,102 @@ static void mode_serial_counters(vf::Ctx& c)
 	if (c.want_sample()) c.sample(d + vf::fmt(" -> %ld schedules", nsched));
 }
 
+// ---------------------------------------------------------------- chains: handles reachable only through the object a handle refers to
+struct Node
+{
+	Tracked t;
+	Shared<Node> next;
+	Node(int v) : t(v) {}
+};
+
+ASL_SMART_CLASS(Link, SmartObject)
+{
+public:
+	ASL_SMART_INNER_DEF(Link);
+	Tracked t;
+	SmartObject next;
+	Link_() : t(1), next((SmartObject_*)0) {}
+};
+class Link : public SmartObject
+{
+public:
+	ASL_SMART_DEF(Link, SmartObject);
+	bool ok() const { return _()->t.ok(); }
+	SmartObject& next() { return _()->next; }
+};
+
+// every thread walks the same list with its own cursor (cur = cur->next); the head handle is dropped first, so each node stays alive only
+// through the previous node or through a cursor. All nodes must be destroyed exactly once, none while a cursor still points at it.
+static void mode_chain(vf::Ctx& c)
+{
+	int n = c.rng.range(2, 40), nth = c.rng.range(1, 4);
+	bool smart = c.rng.chance(0.5);
+	uint64_t seed = c.rng.next();
+	int jm = c.rng.below(3);
+	if (jm == 1) sched::jitter(seed, 0.05, 50);
+	else if (jm == 2) sched::jitter(seed, 0.3, 0);
+	else sched::off();
+	c.desc(vf::fmt("%s chain of %d nodes walked by %d threads (cur = cur->next), jitter %d", smart ? "SmartObject-class" : "Shared<Node>", n, nth, jm));
+	reset_tracking();
+	std::atomic<int> bad(0), visited(0);
+	if (!smart) {
+		std::vector<Shared<Node> > cursors;
+		{
+			Shared<Node> head(new Node(0));
+			Shared<Node> cur = head;
+			for (int i = 1; i < n; i++) { cur->next = Shared<Node>(new Node(i)); cur = cur->next; }
+			for (int t = 0; t < nth; t++) cursors.push_back(head);
+		}   // head and the building cursor are gone: only the per-thread cursors hold the first node
+		std::vector<std::thread> th;
+		for (int t = 0; t < nth; t++)
+			th.emplace_back([&, t]() {
+				Shared<Node>& cur = cursors[t];
+				while (cur) {
+					if (!cur->t.ok()) bad++;
+					visited++;
+					cur = cur->next;     // the source handle lives inside the object the target refers to
+				}
+			});
+		for (auto& x : th) x.join();
+		cursors.clear();
+	} else {
+		std::vector<Link> cursors;
+		{
+			Link head;
+			Link cur = head;
+			for (int i = 1; i < n; i++) { Link nx; cur.next() = nx; cur = nx; }
+			for (int t = 0; t < nth; t++) cursors.push_back(head);
+		}
+		std::vector<std::thread> th;
+		for (int t = 0; t < nth; t++)
+			th.emplace_back([&, t]() {
+				SmartObject cur = cursors[t];
+				cursors[t] = Link();   // the cursor is now the only handle of this thread to the list
+				for (;;) {
+					Link_* node = (Link_*)cur._p;
+					if (!node->t.ok()) bad++;
+					visited++;
+					if (node->next.isnull()) break;
+					cur = node->next;     // assigned from the handle stored inside the object the cursor refers to
+				}
+			});
+		for (auto& x : th) x.join();
+		cursors.clear();
+	}
+	sched::off();
+	if (bad) c.fail("chain.node-destroyed-while-a-cursor-points-at-it", vf::fmt("%d reads of destroyed nodes", (int)bad));
+	if (g_err) c.fail(std::string("chain.") + (const char*)g_err, "");
+	if (visited != n * nth) c.fail("chain.walk-length", vf::fmt("visited %d, expected %d", (int)visited, n * nth));
+	if (g_ctor != g_dtor) c.fail("chain.payload-not-destroyed-exactly-once", vf::fmt("constructed %ld destroyed %ld", (long)g_ctor, (long)g_dtor));
+	c.evals(n * nth);
+	c.distinct(vf::mix(seed, n * 8 + nth));
+	if (c.want_sample()) c.sample(c.curdesc());
+}
+
 int main(int argc, char** argv)
 {
 	vf::Runner R;
+	R.add("chain", mode_chain, "cursors walking a shared linked list: cur = cur->next");
 	R.add("serial", mode_serial, "all interleavings of small handle scenarios at the atomic steps");
 	R.add("serial_counters", mode_serial_counters, "all interleavings of AtomicCount ops");
 	R.add("stress", mode_stress, "high-contention handle traffic");
